@@ -38,7 +38,7 @@ class C09(ModelCheck):
             'distinct = distinct (program, schedule)')
     assumptions = ['accumulators return the seed\'s type', 'mean(reduce) is not applied to a key that may be empty',
                    'float results compared with relative tolerance 1e-9 against the model, exactly in the relation']
-    probe_names = ('mutating_acc', 'factory_seed', 'value_seed', 'terminator', 'empty_key', 'reused_slot', 'relation_checked',
+    probe_names = ('plain_twin', 'accumulator_returns_None', 'mutating_acc', 'factory_seed', 'value_seed', 'terminator', 'empty_key', 'reused_slot', 'relation_checked',
                    'keys>=3', 'typed_state:int', 'typed_state:float', 'typed_state:bool')
     weights = {'filter': 5, 'map': 4, 'progress': 0}
 
@@ -111,6 +111,22 @@ class C09(ModelCheck):
                             if len(rv) != 1 or (sv and sv[-1] != rv[0]):
                                 out.add('reduce-relation', last['op'], {'node': last, 'streaming': sv[-3:], 'reduce': rv, 'key': x.key})
                                 break
+        # the same fold model on an ordinary observable (the other branch of the isinstance dispatch), one party's items
+        from rxsim.program import valid as _valid, Flags as _Flags, St as _St
+        from rxsim.pipesim import run_plain
+        from rxsim.ref import local_check
+        from rxsim.workload import mk_rec
+        if _valid(nodes, _St('rec', True), _Flags(dual=True)):
+            parties = sorted(set(e['p'] for e in case['events']))
+            if parties:
+                recs = [mk_rec(e) for e in case['events'] if e['p'] == parties[0]]
+                pctx, pfinal, pesc = run_plain(nodes, recs, 'complete')
+                if not pctx.aborted and pesc is None and not (pfinal.terminal and pfinal.terminal[0] == 'error'):
+                    out.probes['plain_twin'] += 1
+                    for f in local_check(nodes, pctx, 'plain', only=set(SCANNY)):
+                        if f.kind in ('values',):
+                            out.add(f.kind, f.op + '@plain', f.detail)
+                    out.digest += pctx.trace_digest()
         return out
 
     def probe(self, case, ctx, out):
@@ -121,6 +137,8 @@ class C09(ModelCheck):
             a = F.ACCS[n['fn']]
             if a[3]:
                 p['mutating_acc'] += 1
+            if n['fn'] == 'nreset':
+                p['accumulator_returns_None'] += 1
             if F.SEEDS[n['seed']][2]:
                 p['factory_seed'] += 1
             else:
